@@ -503,12 +503,17 @@ func produceConn(pv int16, codec int, rs []rec) (set []byte, err error) {
 	for i, r := range rs {
 		msgs[i] = kafka.Message{Time: r.t, Key: r.key, Value: r.value, Headers: r.hdrs}
 	}
+	var nbytes int
 	if codec == 0 {
-		_, err = c.WriteMessages(msgs...)
+		nbytes, err = c.WriteMessages(msgs...)
 	} else {
-		_, err = c.WriteCompressedMessages(codecOf(codec), msgs...)
+		nbytes, err = c.WriteCompressedMessages(codecOf(codec), msgs...)
 	}
 	if err != nil {
+		if nbytes != 0 {
+			// "The write is an atomic operation, it either fully succeeds or fails": nothing was written
+			return nil, fmt.Errorf("%w (and nbytes=%d reported together with the error)", err, nbytes)
+		}
 		return nil, err
 	}
 	f.mu.Lock()
@@ -1393,6 +1398,10 @@ func produceCase(r *rand.Rand, path string, version int, codec int, rs []rec, to
 	if v1WithHeaders {
 		// message format 1 cannot carry headers: the only correct outcome is a refusal (C05-D32)
 		if err != nil {
+			if strings.Contains(err.Error(), "nbytes=") {
+				emit("v1hdr "+path, "refused-but-"+strings.ReplaceAll(err.Error()[strings.Index(err.Error(), "nbytes="):], " ", "_"))
+				return
+			}
 			emit("v1hdr "+path, "refused")
 			return
 		}
